@@ -961,6 +961,9 @@ class Interp:
                 return tstr.startswith(s, args[0])
             if name == "format":
                 return OpaqueStr("format")
+            if name in ("strip", "lstrip", "rstrip") and not kwargs and len(args) <= 1 and all(isinstance(a, str) or a is None for a in args) \
+                    and isinstance(s, TStr):
+                return tstr.strip(s, args[0] if args else None, left=name != "rstrip", right=name != "lstrip")
             raise Unsupported("str.%s on a structured string" % name)
         if isinstance(s, FinStr):
             if name in ("lower", "upper", "strip", "title", "lstrip", "rstrip") and not args:
@@ -1204,18 +1207,26 @@ class Interp:
         b = z3.Int("%s.b%d" % (seq.name, k))
         probe = ObjSeqElem(seq, b)
         kt = self.call(key, [probe], {}) if key is not None else None
-        if kt is None or not is_z3(kt):
-            raise Unsupported("sort key of an abstract list element is not an arithmetic term")
+        kts = list(kt) if isinstance(kt, tuple) else [kt]
+        if kt is None or not kts or not all(is_z3(x) or isinstance(x, (int, float)) for x in kts):
+            raise Unsupported("sort key of an abstract list element is not an arithmetic term (or a tuple of such)")
 
         def key_of(base):
-            return z3.substitute(kt, (b, base))
+            return tuple(z3.substitute(x, (b, base)) if is_z3(x) else x for x in kts)
+
+        def le(x, y):
+            # tuples compare lexicographically
+            out = True
+            for xi, yi in reversed(list(zip(x, y))):
+                out = z3.Or(xi < yi, z3.And(xi == yi, out))
+            return out
         i, j = z3.Ints("%s.i%d %s.j%d" % (seq.name, k, seq.name, k))
         n = seq.n
         rng = lambda x: z3.And(x >= 0, x < n)
         self.assume(z3.ForAll([i], z3.Implies(rng(i), z3.And(rng(pi(i)), inv(pi(i)) == i)), patterns=[pi(i)]))
         self.assume(z3.ForAll([j], z3.Implies(rng(j), z3.And(rng(inv(j)), pi(inv(j)) == j)), patterns=[inv(j)]))
         new_ix = lambda x, _o=old_ix, _p=pi: _o(_p(x))
-        self.assume(z3.ForAll([i, j], z3.Implies(z3.And(rng(i), rng(j), i <= j), key_of(new_ix(i)) <= key_of(new_ix(j))),
+        self.assume(z3.ForAll([i, j], z3.Implies(z3.And(rng(i), rng(j), i <= j), le(key_of(new_ix(i)), key_of(new_ix(j)))),
                               patterns=[z3.MultiPattern(pi(i), pi(j))]))
         seq.ix = new_ix
         seq.sorts.append((pi, inv, key_of))
